@@ -33,6 +33,7 @@ type SolverStats struct {
 	Errors   int
 	Time     time.Duration
 	Restarts int
+	Killed   int
 }
 
 type Solver struct {
@@ -46,6 +47,8 @@ type Solver struct {
 	marks   []int
 	Stats   SolverStats
 	timeout int // ms
+	// LastKilled: the last query was ended by the watchdog
+	LastKilled bool
 	logw    io.Writer
 	dead    bool
 	needFresh bool
@@ -334,11 +337,20 @@ func (s *Solver) Check(asserts []*Term, vars []*Term, wantModel bool) (Result, m
 	}
 	sb.WriteString("(check-sat)\n")
 	s.send(sb.String())
+	// watchdog: some theories (sequences in z3 4.8) do not honour the solver's own time limit
+	proc := s.cmd.Process
+	s.LastKilled = false
+	watchdog := time.AfterFunc(time.Duration(s.timeout+3000)*time.Millisecond, func() {
+		s.Stats.Killed++
+		s.LastKilled = true
+		proc.Kill()
+	})
 	res, hadErr := s.readResult()
 	var model map[string]interface{}
 	if res == Sat && wantModel && !hadErr {
 		model = s.getValues(vars)
 	}
+	watchdog.Stop()
 	if !s.dead {
 		s.send("(pop 1)\n")
 	}
